@@ -38,6 +38,9 @@ func (v *Vue) evalAttributes(ctx VueContext, n *html.Node) (map[string]any, erro
 		}
 
 		switch {
+		case key == "data-v-html-content" || key == "data-v-text-content":
+			// evaluated v-html / v-text content is data: it is carried over verbatim, never interpolated
+			newAttrs = append(newAttrs, html.Attribute{Key: key, Val: val})
 		case boundName != key:
 			boundValue, err := v.evalBoundAttribute(ctx, boundName, val)
 			if err != nil {
